@@ -1,4 +1,5 @@
-import EdpVerif.Generated.Misc
+import EdpVerif.Generated.MiscC09
+import EdpVerif.Generated.MiscState
 import EdpVerif.Lemmas.Recv
 import EdpVerif.Props.C09
 import EdpVerif.Generated.Control
